@@ -505,10 +505,11 @@ def r9_concrete_operands(run: Run, rt, rule='C10.R9'):
 
 
 def run(run: Run):
+    from .common import cached_guard as _cached_guard
     src = get_source()
     rt = get_runtime(src)
     run.rule('C10.R9', 'concrete operands: numbers by value without loss, texts character by character, equal is equal')
-    run.guard('C10.R9', r9_concrete_operands, run, rt)
+    _cached_guard(run, 'C10.R9', r9_concrete_operands, rt)
     run.floor('C10.R9', 40)
     from . import c04 as _c04
     from .common import borrow as _borrow
@@ -518,15 +519,15 @@ def run(run: Run):
     from . import lexer_eval as _lx
     from ..grammar import get_grammar as _gg
     run.rule('C10.R7', 'a number literal operand reaches the comparison as the number it denotes (shared with C05.R3)')
-    run.guard('C10.R7', _lx.number_literal_obligations, run, 'C10.R7', src, _gg(src))
+    _cached_guard(run, 'C10.R7', _lx.number_literal_obligations, 'C10.R7', src, _gg(src))
     run.floor('C10.R7', 10)
     run.rule('C10.R1', 'no lossy coercion / operand mix-up before _by_operator over all operand-kind pairs')
     run.rule('C10.R2', '_by_operator maps every emitted operator string to the same-meaning comparison')
     run.rule('C10.R3', 'blank-cell comparison laws over the classes that reach them')
     run.rule('C10.R4', 'dates are compared as date-times at midnight')
     reach = run.guard('C10.R1', r1_r4, run, rt) or {}
-    run.guard('C10.R2', r2, run, src, rt)
-    run.guard('C10.R3', r3, run, rt, reach)
+    _cached_guard(run, 'C10.R2', r2, src, rt)
+    _cached_guard(run, 'C10.R3', r3, rt, reach)
     run.floor('C10.R1', 200)
     run.floor('C10.R2', 12)
     run.floor('C10.R3', 60)
